@@ -906,3 +906,59 @@ def ord18b_client_release_collects(P, R, L, rule="ORD-18b"):
                         "a clean-up that releases a version pin also reaches remove_obsolete_files (or schedules the collector)",
                         "reaches release_version; reaches a collector: %s" % ok)
     R.floor(rule, "iterator clean-ups that release a version", n, 1)
+
+
+# ------------------------------------------------------------------------------------------- FS-3 the in-memory file system's rename / remove_file
+MEMFS = "<fs::fs_mem::InMemoryFileSystem as fs::traits::FileSystem>::"
+
+
+def _from_param(b, op, n, depth=3):
+    """the operand is parameter n, possibly converted by one-argument calls (to_path_buf, to_owned, PathBuf::from, ...)"""
+    for o in origins(b, op):
+        if o.kind == "param" and o.name == n:
+            return True
+        if o.kind == "call" and o.site is not None and len(o.site.args) == 1 and depth > 0 and _from_param(b, o.site.args[0], n, depth - 1):
+            return True
+    return False
+
+
+def fs3_memory_rename_and_remove(P, R, L, rule="FS-3"):
+    """fs_mem (DbOptions::with_memory_env, and what every fault-injection wrapper sits on): rename takes the file out of the map
+    under `from` and files THAT file under `to` (replacing whatever was there: the atomic CURRENT switch), reporting Ok only
+    when the source existed; remove_file takes `path` out of the map and reports Ok only when something was removed."""
+    from ..rules import _switches_on_local
+    n = 0
+    for meth in ("rename", "remove_file"):
+        b = P.body(MEMFS + meth)
+        if b is None:
+            R.missing_anchor(rule, MEMFS + meth)
+            continue
+        R.analysed(b)
+        n += 1
+        rem = [c for c in b.calls() if not b.is_cleanup(c.bb) and (c.name or "").endswith("HashMap::remove") and len(c.args) >= 2]
+        by_src = [c for c in rem if _from_param(b, c.args[1], 2)]
+        some_e, none_e = [], []
+        for c in by_src:
+            for bb in range(b.n):
+                for st in b.blocks[bb]["stmts"]:
+                    if st["k"] == "assign" and st["rv"]["k"] == "discr" and not st["pl"]["p"] and st["rv"]["pl"]["l"] == c.dest["l"] and not b.is_cleanup(bb):
+                        for sb in _switches_on_local(b, st["pl"]["l"]):
+                            t0, t1 = switch_target(b.term(sb), 0), switch_target(b.term(sb), 1)
+                            if t0 != t1:
+                                none_e.append((sb, t0))
+                                some_e.append((sb, t1))
+        oks = [bb for bb in range(b.n) if not b.is_cleanup(bb) for st in b.blocks[bb]["stmts"]
+               if st["k"] == "assign" and st["pl"]["l"] == 0 and _eff_rv(b, st["rv"]).get("variant") == "Ok"]
+        ok_only_when_found = bool(by_src) and bool(oks) and bool(some_e) and all(b.must_pass(x, through_edges=some_e) for x in oks)
+        if meth == "remove_file":
+            R.check(rule, MEMFS + meth + "|removes-the-named-file", ok_only_when_found and len(rem) == len(by_src), where(b),
+                    "remove_file removes `path` from the map and returns Ok only on the edge where an entry was removed", "removals %d (by the path argument %d), Ok sites %d" % (len(rem), len(by_src), len(oks)))
+            continue
+        ins = [c for c in b.calls() if not b.is_cleanup(c.bb) and (c.name or "").endswith("HashMap::insert") and len(c.args) >= 3]
+        good = [c for c in ins if _from_param(b, c.args[1], 3) and
+                any(o.kind == "call" and o.site is not None and o.site.bb in {r.bb for r in by_src} for o in origins(b, c.args[2]))]
+        moved = bool(good) and len(good) == len(ins) and all(b.must_pass(x, through_nodes=[c.bb for c in good]) for x in oks)
+        R.check(rule, MEMFS + meth + "|moves-the-file", ok_only_when_found and moved and len(rem) == len(by_src), where(b),
+                "rename removes `from`, inserts the removed file under `to`, and returns Ok only when both happened",
+                "removals %d (by `from` %d), inserts %d (of the removed file under `to` %d), Ok sites %d" % (len(rem), len(by_src), len(ins), len(good), len(oks)))
+    R.floor(rule, "in-memory file system methods examined", n, 2)
